@@ -10,7 +10,8 @@ NOOP_CALLS = {"print"}
 NOOP_ATTR_CALLS = {("warnings", "warn")}
 # networkx model classes: method -> fields it may change (frame of the assumed library contract)
 NX_MODIFIES = {"NxGraph": {"add_node": ["_gv"], "add_nodes_from": ["_gv"], "add_edge": ["_gv", "_ge", "_gw"]},
-               "NxDiGraph": {"add_node": ["_gv"], "add_nodes_from": ["_gv"], "add_edge": ["_gv", "_ge", "_gw"]}}
+               "NxDiGraph": {"add_node": ["_gv"], "add_nodes_from": ["_gv"], "add_edge": ["_gv", "_ge", "_gw"]},
+               "NxGraphS": {"add_node": ["_gv"], "add_nodes_from": ["_gv"], "add_edge": ["_gv", "_ge", "_gw"]}}      # vertices are vertex names
 
 
 class CallMixin:
@@ -358,6 +359,8 @@ class CallMixin:
             self._assume(p, z3.And(r >= 0, r < 1))
             return T.sv_real(r)
         if name in ("nx.Graph", "nx.DiGraph", "networkx.Graph", "networkx.DiGraph") and not e.args and not e.keywords:
+            if self.cur is not None and "nx_strings" in self.cur.options and not name.endswith("DiGraph"):
+                return self.nx_new("NxGraphS")
             return self.nx_new("NxDiGraph" if name.endswith("DiGraph") else "NxGraph")
         if name in ("nx.betweenness_centrality", "nx.closeness_centrality", "networkx.betweenness_centrality", "networkx.closeness_centrality") \
                 and len(e.args) == 1 and not e.keywords:
@@ -365,8 +368,8 @@ class CallMixin:
             g = self.ev(e.args[0], p)
             if not (isinstance(g.ty, T.Obj) and g.ty.cls in NX_MODIFIES):
                 raise Unsupported(f"{name} of {g.ty}")
-            fn = TH.nx_centrality(name.rsplit(".", 1)[1], g.ty.cls)
-            return T.sv_map(T.INT, T.REAL, g.fields["_gv"].t, fn(g.fields["_gv"].t, g.fields["_ge"].t, g.fields["_gw"].dom, g.fields["_gw"].val))
+            fn = TH.nx_centrality(name.rsplit(".", 1)[1], g.ty.cls, g.fields["_gv"].ty.e)
+            return T.sv_map(g.fields["_gv"].ty.e, T.REAL, g.fields["_gv"].t, fn(g.fields["_gv"].t, g.fields["_ge"].t, g.fields["_gw"].dom, g.fields["_gw"].val))
         if name in ("np.zeros", "numpy.zeros") and len(e.args) == 1 and not e.keywords and isinstance(e.args[0], ast.Tuple) and len(e.args[0].elts) == 2:
             # np.zeros((r, c)): an r x c array of 0.0 (ValueError for a negative dimension); assumed library contract
             if "NpArray2" not in self.reg.layouts:
@@ -417,8 +420,9 @@ class CallMixin:
         lay = self.reg.layouts.get(cls)
         if lay is None:
             raise Unsupported(f"layout {cls} is not registered (networkx model)")
-        pt = T.Pair(T.INT, T.INT)
-        return T.sv_obj(cls, {"_gv": T.scalar(T.Set(T.INT), z3.K(T.I, z3.BoolVal(False))),
+        vt = lay.fields["_gv"].e
+        pt = T.Pair(vt, vt)
+        return T.sv_obj(cls, {"_gv": T.scalar(T.Set(vt), z3.K(vt.sort(), z3.BoolVal(False))),
                               "_ge": T.scalar(T.Set(pt), z3.K(pt.sort(), z3.BoolVal(False))),
                               "_gw": T.sv_map(pt, T.REAL, z3.K(pt.sort(), z3.BoolVal(False)), fresh("gw0", z3.ArraySort(pt.sort(), T.R)))})
 
@@ -427,7 +431,8 @@ class CallMixin:
             raise Unsupported("networkx method on a computed receiver")
         cls, name = recv.ty.cls, f.value.id
         directed = cls == "NxDiGraph"
-        pt = T.Pair(T.INT, T.INT)
+        vt = recv.fields["_gv"].ty.e
+        pt = T.Pair(vt, vt)
         gv, ge, gw = recv.fields["_gv"], recv.fields["_ge"], recv.fields["_gw"]
         kw = {k.arg: k.value for k in e.keywords}
 
@@ -439,11 +444,11 @@ class CallMixin:
         if f.attr == "add_node" and len(e.args) == 1:
             for v in kw.values():
                 self.ev(v, p)          # node attributes are not modelled
-            n = self.coerce(self.ev(e.args[0], p), T.INT).t
+            n = self.coerce(self.ev(e.args[0], p), vt).t
             return put(z3.Store(gv.t, n, True), ge.t, (gw.dom, gw.val))
         if f.attr == "add_edge" and len(e.args) == 2 and set(kw) <= {"weight"}:
-            u = self.coerce(self.ev(e.args[0], p), T.INT).t
-            v = self.coerce(self.ev(e.args[1], p), T.INT).t
+            u = self.coerce(self.ev(e.args[0], p), vt).t
+            v = self.coerce(self.ev(e.args[1], p), vt).t
             gv2 = z3.Store(z3.Store(gv.t, u, True), v, True)
             ge2 = z3.Store(ge.t, pt.mk(u, v), True)
             dom, val = gw.dom, gw.val
@@ -457,10 +462,10 @@ class CallMixin:
             return put(gv2, ge2, (dom, val))
         if f.attr == "add_nodes_from" and len(e.args) == 1 and not kw:
             src = self.ev(e.args[0], p)
-            x = fresh("x", T.I)
-            if isinstance(src.ty, T.Bag) and src.ty.e == T.INT:
+            x = fresh("x", vt.sort())
+            if isinstance(src.ty, T.Bag) and src.ty.e == vt:
                 mem = src.t[x] >= 1
-            elif isinstance(src.ty, T.Set) and src.ty.e == T.INT:
+            elif isinstance(src.ty, T.Set) and src.ty.e == vt:
                 mem = src.t[x]
             else:
                 raise Unsupported(f"add_nodes_from over {src.ty}")
@@ -500,6 +505,12 @@ class CallMixin:
         if len(e.args) != 1 or e.keywords:
             raise Unsupported(f"{e.func.id} with these arguments")
         return self.ev(e.args[0], p)
+
+    def bi_str(self, e, p):
+        v = self._one(e, p)
+        if v.ty in (T.INT, T.BOOL):
+            return T.scalar(T.STRINT, self.coerce(v, T.INT).t)
+        raise Unsupported(f"str() of {v.ty}")
 
     def bi_len(self, e, p):
         if len(e.args) == 1 and not e.keywords and isinstance(e.args[0], ast.Name) and isinstance(p.env.get(e.args[0].id, SV(T.NONE)).ty, T.Obj) \
